@@ -487,6 +487,25 @@ func CondString(v ssa.Value, neg bool) string {
 			if neg {
 				op, _ = negOp(op)
 			}
+			// len(x) compared with 0: canonical forms "> 0" and "== 0"
+			if rc, ok := r.(*ssa.Const); ok && rc.Value != nil && isLenCall(l) {
+				switch rc.Value.String() {
+				case "0":
+					switch op {
+					case token.NEQ, token.GTR:
+						op = token.GTR
+					case token.EQL, token.LEQ:
+						op = token.EQL
+					}
+				case "1":
+					switch op {
+					case token.GEQ:
+						return "(" + Norm(l) + " > 0)"
+					case token.LSS:
+						return "(" + Norm(l) + " == 0)"
+					}
+				}
+			}
 			return "(" + Norm(l) + " " + op.String() + " " + Norm(r) + ")"
 		}
 	}
@@ -787,4 +806,13 @@ func CanonParam(x *ssa.Parameter) string {
 		}
 	}
 	return x.Name()
+}
+
+func isLenCall(v ssa.Value) bool {
+	c, ok := v.(*ssa.Call)
+	if !ok {
+		return false
+	}
+	b, ok := c.Common().Value.(*ssa.Builtin)
+	return ok && b.Name() == "len"
 }
